@@ -160,7 +160,12 @@ struct WScript {
 	bool runaway;
 	std::vector<size_t> lens;        // requested length of every call
 	Hs trace;                        // realized (requested length, answer) sequence
-	WScript() : active(false), fd(-1), pattern(0), calls(0), applied(0), runaway(false) {}
+	// pattern 3 (part allwrite): answers by call index: k > 0 = k octets taken (k >= request: all), -1 EAGAIN, -2 EINTR; then full writes
+	std::vector<long> script;
+	std::vector<uint64_t> obs;       // per call: hash of (requested length, requested octets)
+	std::vector<size_t> taken_before;   // per call: octets taken by the environment so far
+	size_t taken;
+	WScript() : active(false), fd(-1), pattern(0), calls(0), applied(0), runaway(false), taken(0) {}
 };
 static WScript WS;
 // the byte count a short-write deviation returns for a request of n bytes (0 = not applicable)
@@ -176,6 +181,18 @@ extern "C" ssize_t write(int fd, const void *buf, size_t n)
 	size_t idx = WS.calls++;
 	if (WS.calls > 5000) { WS.runaway = true; errno = EPIPE; return -1; }   // a write loop that does not terminate
 	WS.lens.push_back(n);
+	if (WS.pattern == 3)
+	{
+		{ Hs h; h.u(n), h.b(buf, n); WS.obs.push_back(h.fin()); }
+		WS.taken_before.push_back(WS.taken);
+		long a = idx < WS.script.size() ? WS.script[idx] : (long)n;
+		if (a < 0) { WS.applied++; WS.trace.u(n), WS.trace.u(100000 + (size_t)(-a)); errno = a == -1 ? EAGAIN : EINTR; return -1; }
+		size_t k = (size_t)a >= n ? n : (size_t)a;
+		if (k < n) WS.applied++;
+		WS.trace.u(n), WS.trace.u(k);
+		WS.taken += k;
+		return syscall(SYS_write, fd, buf, k);
+	}
 	int d = W_FULL;
 	if (WS.pattern == 1) d = W_S1;
 	else if (WS.pattern == 2) d = (idx & 1) ? W_EAGAIN : W_FULL;
@@ -1091,9 +1108,9 @@ template<class AIO> static void add_conf_cells(const Mode *modes, size_t nmodes)
 
 // ---------------------------------------------------------------- part wenv: the environment's answers to the sender's writes
 static int64_t CLOCK0;
-struct WRun { std::vector<bool> ok; std::string wire; size_t calls, applied; bool runaway; std::vector<size_t> lens; uint64_t trace; };
+struct WRun { std::vector<bool> ok; std::string wire; size_t calls, applied; bool runaway; std::vector<size_t> lens; uint64_t trace; std::vector<uint64_t> obs; std::vector<size_t> taken_before; };
 
-template<class AIO> static WRun wenv_send(const Mode &m, const Exchange &ex, int pattern, const std::map<size_t, int> &dev)
+template<class AIO> static WRun wenv_send(const Mode &m, const Exchange &ex, int pattern, const std::map<size_t, int> &dev, const std::vector<long> *script = NULL)
 {
 	Pool &P = pools[Tr<AIO>::pool()];
 	mcenv::set_clock(CLOCK0);
@@ -1101,7 +1118,9 @@ template<class AIO> static WRun wenv_send(const Mode &m, const Exchange &ex, int
 	slurp(P.cap_r[0]);
 	AIO *s = make<AIO>(2, 0, m, aiounicast::aio_scheduler_roundrobin, &cs);
 	WS = WScript();
-	WS.fd = P.cap_w[0], WS.pattern = pattern, WS.dev = dev, WS.active = true;
+	WS.fd = P.cap_w[0], WS.pattern = pattern, WS.dev = dev;
+	if (script) WS.script = *script;
+	WS.active = true;
 	WRun r;
 	for (size_t it = 0; it < ex.size(); it++)
 	{
@@ -1115,6 +1134,7 @@ template<class AIO> static WRun wenv_send(const Mode &m, const Exchange &ex, int
 	WS.active = false;
 	r.wire = slurp(P.cap_r[0]);
 	r.calls = WS.calls, r.applied = WS.applied, r.runaway = WS.runaway, r.lens = WS.lens, r.trace = WS.trace.fin();
+	r.obs = WS.obs, r.taken_before = WS.taken_before;
 	delete s;
 	mcenv::cur = NULL;
 	mcenv::set_clock(CLOCK0);
@@ -1239,6 +1259,133 @@ template<class AIO> static void add_wenv_cells(const Mode *modes, size_t nmodes,
 	}
 }
 
+
+// ---------------------------------------------------------------- part allwrite: ALL answer sequences of the write side
+// The environment answers every write call of the sender with "k octets taken" for ANY k from 1 to the requested length, or
+// with EAGAIN / EINTR (at most two error answers in a row, otherwise the space is infinite).  A history is the list of
+// answers given so far (afterwards every write is taken completely).  What the sender does next depends on the history only
+// through (octets taken so far, length of the current error streak): that is the canonical state, and the assumption is
+// CHECKED on the fly - the request the sender makes in a state (length and octets) is recorded per state and must be the same
+// whenever the state is reached again (a difference is reported as a machinery error and the state is not merged).
+// Breadth-first search over the states; every transition is one complete real run of Send under the history + one answer,
+// judged like the wenv runs: every Send returned true => the wire equals the deviation-free wire octet for octet and a fresh
+// receiver delivers exactly the sent integers; otherwise what is delivered is a prefix containing every accepted integer.
+template<class AIO> static void allwrite_cell(const Cell &C, const Mode &m, const Exchange &ex)
+{
+	const std::string kbase = std::string("c13/wenv/") + Tr<AIO>::name() + "/" + m.name + "/";
+	std::map<size_t, int> none;
+	std::vector<long> empty;
+	WRun base = wenv_send<AIO>(m, ex, 3, none, &empty);
+	if (base.applied != 0 || base.ok.size() != ex.size()) die("allwrite: deviation-free run is not deviation free");
+	uint64_t runs = 0, calls = 0, send_false = 0, merged = 0;
+	bool complete = true;
+	auto histstr = [](const std::vector<long> &h) { std::string o; for (size_t i = 0; i < h.size(); i++) o += (i ? " " : "") + (h[i] == -1 ? std::string("EAGAIN") : h[i] == -2 ? std::string("EINTR") : str((size_t)h[i])); return o; };
+	auto judge = [&](const std::vector<long> &hist, const WRun &r)
+	{
+		runs++, calls += r.calls, TOTAL_TRANS++;
+		R->ok(!DUP);
+		std::string cid = C.id + "/" + histstr(hist);
+		bool allok = r.ok.size() == ex.size();
+		size_t nsucc = 0;
+		for (size_t i = 0; i < r.ok.size(); i++) if (r.ok[i]) nsucc++; else allok = false;
+		std::string ctx = "sent " + show(ex) + " under the write answers [" + histstr(hist) + "] (" + str(r.calls) + " write calls, Send returned";
+		for (size_t i = 0; i < r.ok.size(); i++) ctx += r.ok[i] ? " true" : " false";
+		ctx += ")";
+		if (r.runaway) report(kbase + "runaway-write-loop", ctx + ": more than 5000 write calls", cid);
+		if (allok)
+		{
+			if (r.wire != base.wire)
+			{
+				size_t o = 0;
+				while (o < r.wire.size() && o < base.wire.size() && r.wire[o] == base.wire[o]) o++;
+				report(kbase + "wire-differs", ctx + ": wire has " + str(r.wire.size()) + " bytes, deviation-free wire " + str(base.wire.size()) + ", first difference at offset " + str(o) +
+					"; wire=" + hex(r.wire, 120) + " expected=" + hex(base.wire, 120), cid);
+			}
+			else return;   // the receiver's behaviour on this wire image is the business of the other parts
+		}
+		else send_false++;
+		Rx<AIO> rx(2, m, aiounicast::aio_scheduler_roundrobin, &ex);
+		rx.relay(0, r.wire.data(), r.wire.size()), rx.quiesce();
+		bool prefix = rx.got.size() <= ex.size();
+		for (size_t i = 0; i < rx.got.size() && prefix; i++) if (rx.got[i].vals != ex[i].vals || rx.got[i].from != 0) prefix = false;
+		if (!prefix) report(kbase + "delivered-changed-or-spurious", ctx + ": delivered " + show(rx.got), cid);
+		else if (rx.got.size() < nsucc) report(kbase + "accepted-not-delivered", ctx + ": delivered " + show(rx.got), cid);
+	};
+	// canonical state -> observed request; frontier of histories
+	std::map<std::pair<size_t, int>, uint64_t> request_of;
+	std::set<std::pair<size_t, int> > seen;
+	std::deque<std::vector<long> > frontier;
+	frontier.push_back(empty);
+	seen.insert(std::make_pair((size_t)0, 0));
+	while (!frontier.empty())
+	{
+		if (R->out_of_time()) { complete = false; break; }
+		std::vector<long> h = frontier.front();
+		frontier.pop_front();
+		// the request the sender makes after this history (call number h.size()) is known from the run of the history itself
+		WRun here = wenv_send<AIO>(m, ex, 3, none, &h);
+		if (here.lens.size() <= h.size()) continue;               // no further write call: the exchange is over (or Send gave up)
+		const size_t n = here.lens[h.size()];
+		int streak = 0;
+		for (size_t i = h.size(); i-- > 0 && h[i] < 0;) streak++;
+		{
+			std::pair<size_t, int> st(here.taken_before[h.size()], streak);
+			std::map<std::pair<size_t, int>, uint64_t>::iterator it = request_of.find(st);
+			if (it == request_of.end()) request_of[st] = here.obs[h.size()];
+			else if (it->second != here.obs[h.size()]) die("allwrite: the request of the sender is not a function of (octets taken, error streak) in " + C.id + " after [" + histstr(h) + "]");
+		}
+		std::vector<long> answers;
+		for (size_t k = 1; k < n; k++) answers.push_back((long)k);
+		answers.push_back((long)n);
+		if (streak < 2) answers.push_back(-1), answers.push_back(-2);
+		for (size_t a = 0; a < answers.size(); a++)
+		{
+			std::vector<long> h2(h);
+			h2.push_back(answers[a]);
+			if (!R->selected(C.id + "/" + histstr(h2)) && !R->args.only.empty()) continue;
+			WRun r = wenv_send<AIO>(m, ex, 3, none, &h2);
+			judge(h2, r);
+			size_t taken = here.taken_before[h.size()] + (answers[a] > 0 ? (size_t)answers[a] : 0);
+			std::pair<size_t, int> st(taken, answers[a] < 0 ? streak + 1 : 0);
+			if (r.lens.size() > h2.size())
+			{
+				// on-the-fly check of the merge assumption for the successor as well
+				std::map<std::pair<size_t, int>, uint64_t>::iterator it = request_of.find(st);
+				if (it == request_of.end()) request_of[st] = r.obs[h2.size()];
+				else if (it->second != r.obs[h2.size()]) die("allwrite: the request of the sender is not a function of (octets taken, error streak) in " + C.id + " after [" + histstr(h2) + "]");
+			}
+			if (seen.insert(st).second) frontier.push_back(h2);
+			else merged++;
+		}
+	}
+	TOTAL_STATES += seen.size();
+	R->counters["allwrite_states"] += seen.size(), R->counters["allwrite_runs"] += runs, R->counters["allwrite_write_calls_seen"] += calls;
+	R->counters["allwrite_runs_with_a_send_returning_false"] += send_false, R->counters["allwrite_merged_successors"] += merged;
+	if (!complete) R->counters["allwrite_cells_incomplete"]++, R->caps.insert("allwrite cell " + C.id + " stopped at the deadline");
+	else R->counters["allwrite_cells_complete"]++;
+	R->sample(C.id, "sent " + show(ex) + " wire " + str(base.wire.size()) + " octets in " + str(base.lens.size()) + " write calls: " + str(seen.size()) + " states (octets taken, error streak), " +
+		str(runs) + " complete runs of Send (one per state and answer), complete=" + str(complete ? 1 : 0));
+}
+
+template<class AIO> static void add_allwrite_cells(const Mode *modes, size_t nmodes, bool thorough)
+{
+	for (size_t mi = 0; mi < nmodes; mi++)
+	{
+		const Mode m = modes[mi];
+		const char *names[3] = { "w1", "w2", "w3" };
+		Exchange exs[3] = { singles({ V_B }), singles({ "61", V_A }), singles({ "0", V_D, "62" }) };
+		for (int xi = 0; xi < (thorough ? 3 : 2); xi++)
+		{
+			Cell C;
+			C.id = std::string("aw/") + Tr<AIO>::name() + "/" + m.name + "/" + names[xi];
+			C.cost = 1000.0 * (xi + 1) * (xi + 1) * (1 + (m.auth ? 1 : 0) + (m.enc ? 1 : 0));
+			Exchange ex = exs[xi];
+			C.run = [m, ex](const Cell &c) { allwrite_cell<AIO>(c, m, ex); };
+			cells.push_back(C);
+		}
+	}
+}
+
 // ------------------------------------------------------------------------------------------------ main
 int main(int argc, char **argv)
 {
@@ -1264,6 +1411,7 @@ int main(int argc, char **argv)
 	if (part == "allfrag" || part == "all") add_allfrag_cells<aiounicast_select>(MODES_SELECT, NS, thorough), add_allfrag_cells<aiounicast_nonblock>(MODES_NONBLOCK, NN, thorough);
 	if (part == "n3" || part == "all") add_n3_cells<aiounicast_select>(MODES_SELECT, NS, thorough), add_n3_cells<aiounicast_nonblock>(MODES_NONBLOCK, NN, thorough);
 	if (part == "fault" || part == "all") add_fault_cells<aiounicast_select>(MODES_SELECT, NS, thorough), add_fault_cells<aiounicast_nonblock>(MODES_NONBLOCK, NN, thorough);
+	if (part == "allwrite" || part == "all") add_allwrite_cells<aiounicast_select>(MODES_SELECT, NS, thorough), add_allwrite_cells<aiounicast_nonblock>(MODES_NONBLOCK, NN, thorough);
 	if (part == "wenv" || part == "all") add_wenv_cells<aiounicast_select>(MODES_SELECT, NS, thorough), add_wenv_cells<aiounicast_nonblock>(MODES_NONBLOCK, NN, thorough);
 	if (part == "conf" || part == "all") add_conf_cells<aiounicast_select>(MODES_SELECT, NS), add_conf_cells<aiounicast_nonblock>(MODES_NONBLOCK, NN);
 
@@ -1301,6 +1449,7 @@ int main(int argc, char **argv)
 	R->bound = thorough ? "all single cuts and all pairs of cuts (max-size value: single cuts); faults at every offset of a 3-message wire"
 		: "all single cuts; pairs for 1-2 message exchanges; faults at every offset of a 2-message wire";
 	if (part == "allfrag") R->bound = "ALL fragmentations and poll interleavings of the wire image of each listed exchange (explicit-state search over the real receiver, complete unless a cap is listed)";
+	if (part == "allwrite") R->bound = "ALL sequences of write answers (any number of octets taken, EAGAIN, EINTR; error streaks <= 2) for exchanges of 1, 2 (and 3) integers, by state-space search over (octets taken, error streak)";
 	if (part == "wenv") R->bound = "every single and every ordered pair of write-environment deviations at every write call, exchanges of 1 and 2 integers";
 	R->finish();
 	return 0;
